@@ -24,6 +24,7 @@ LEVEL = "model_checking"
 
 CLAUSES = ["C14.lossy", "C14.wrong_variant_with_discriminator", "C14.unmapped_guess", "C14.retry_after_mapped_failure", "C14.error_on_conforming", "C14.not_a_variant"]
 NAMES = ["Alpha", "Beta", "Gamma", "Delta"]
+DIGIT_NAMES = ["Pet1", "Pet2", "Pet3", "Pet4"]  # file pet_1.py, but the emitted get_mapping() imports .pet1
 FIELDS = ["a", "b", "c"]
 
 
@@ -142,7 +143,7 @@ def judge(chk: Check, traces: list[dict], label: str, via: str) -> None:
             loc["via"] = via
             p = t["cases"][f["cid"] - 1]["p"]
             o = next(o for o in t["obs"] if o["cid"] == f["cid"] and o["pos"] == f["pos"])
-            chk.fail(f["clause"], loc, {"u": u, "payload": p, "pos": f["pos"], "via": via}, f"observed {json.dumps({k: o[k] for k in ('out', 'chosen', 'ckind', 'ekind', 'reenc')})[:400]}")
+            chk.fail(f["clause"], loc, {"u": u, "payload": p, "pos": f["pos"], "via": via, "naming": t.get("_naming", "plain")}, f"observed {json.dumps({k: o[k] for k in ('out', 'chosen', 'ckind', 'ekind', 'reenc')})[:400]}")
         if v["drift"] and not t.get("_nodrift"):
             ndrift += len(v["drift"])
             if chk.cov.get("drift_reported", 0) < 3:
@@ -172,10 +173,10 @@ def replay_direct(chk: Check, scen: list[dict], label: str, all_positions_upto: 
 # ---- generated packages
 
 
-def variant_schema(v: dict, i: int, disc_prop: str | None) -> dict:
+def variant_schema(v: dict, i: int, names: list[str]) -> dict:
     k = v["k"]
     if k == "obj":
-        return {"$ref": f"#/components/schemas/{NAMES[i]}"}
+        return {"$ref": f"#/components/schemas/{names[i]}"}
     if k in ("str", "int", "float", "bool"):
         return {"type": {"str": "string", "int": "integer", "float": "number", "bool": "boolean"}[k]}
     prim = {"str": {"type": "string"}, "int": {"type": "integer"}}
@@ -188,7 +189,7 @@ def variant_schema(v: dict, i: int, disc_prop: str | None) -> dict:
     raise ValueError(k)
 
 
-def union_doc(u: dict, how: str) -> dict:
+def union_doc(u: dict, how: str, names: list[str] = NAMES) -> dict:
     """The one translation of an abstract union (UnionCodec.tla vocabulary) to an OpenAPI document: the union is the
     schema Pet, used as a response, as the property HolderF.u and as the items of HolderL.items."""
     disc = u["disc"]
@@ -210,10 +211,10 @@ def union_doc(u: dict, how: str) -> dict:
         node: dict[str, Any] = {"type": "object", "properties": props}
         if req:
             node["required"] = req
-        schemas[NAMES[i]] = node
-    pet: dict[str, Any] = {how: [variant_schema(v, i, prop) for i, v in enumerate(u["vars"])]}
+        schemas[names[i]] = node
+    pet: dict[str, Any] = {how: [variant_schema(v, i, names) for i, v in enumerate(u["vars"])]}
     if prop:
-        pet["discriminator"] = {"propertyName": prop, "mapping": {tag: f"#/components/schemas/{NAMES[i - 1]}" for tag, i in disc["mapping"]}}
+        pet["discriminator"] = {"propertyName": prop, "mapping": {tag: f"#/components/schemas/{names[i - 1]}" for tag, i in disc["mapping"]}}
     if u["nullable"]:
         pet["nullable"] = True
     schemas["Pet"] = pet
@@ -241,6 +242,9 @@ def pick_generated(chk: Check, fams: dict[str, list[dict]], target: int) -> list
             continue
         ranked = sorted(scen, key=lambda d: stable_hash(ukey(d["u"]), chk.seed))
         out += [(fam, d) for d in ranked[: quota[fam]]]
+        if fam == "disc":
+            # the same discriminated unions once more with schema names that contain digits (emitted module names differ)
+            out += [("disc-digit", d) for d in ranked[:8]]
     return out
 
 
@@ -251,7 +255,7 @@ def replay_generated(chk: Check, picked: list[tuple[str, dict]], label: str) -> 
     jobs = []
     for j, (fam, d) in enumerate(picked):
         how = "oneOf" if j % 2 == 0 else "anyOf"
-        jobs.append({"id": f"{label}#{j}", "root": str(root), "spec": union_doc(d["u"], how), "pkg": f"u{j}.client", "force": True, "nopp": True})
+        jobs.append({"id": f"{label}#{j}", "root": str(root), "spec": union_doc(d["u"], how, DIGIT_NAMES if fam == "disc-digit" else NAMES), "pkg": f"u{j}.client", "force": True, "nopp": True})
     gres = core.parallel_py(chk.scratch, "harness.w_gen", jobs)
     ojobs = []
     for (fam, d), j, g in zip(picked, jobs, gres):
@@ -260,7 +264,8 @@ def replay_generated(chk: Check, picked: list[tuple[str, dict]], label: str) -> 
             if chk.cov["not_generated"] <= 2:
                 chk.note_drift(f"generation failed visibly for a union document ({g['errtype']}: {str(g['err'])[:160]}) - not judged")
             continue
-        names = {NAMES[i]: i + 1 for i, v in enumerate(d["u"]["vars"]) if v["k"] == "obj"}
+        nm = DIGIT_NAMES if fam == "disc-digit" else NAMES
+        names = {nm[i]: i + 1 for i, v in enumerate(d["u"]["vars"]) if v["k"] == "obj"}
         ojobs.append({"id": j["id"], "root": j["root"], "pkg": j["pkg"], "want": ["unions"], "alias": "Pet", "field_holder": "HolderF", "list_holder": "HolderL", "names": names, "cases": [{"cid": i + 1, "payload": c["p"]} for i, c in enumerate(d["cases"])]})
     chk.require(len(ojobs) > 0, "no union document could be generated")
     ores = {r["id"]: r for r in core.parallel_py(chk.scratch, "harness.w_obs", ojobs, env={"VERIF_OBS_EXTRA": "harness.w_unionobs"})}
@@ -278,8 +283,8 @@ def replay_generated(chk: Check, picked: list[tuple[str, dict]], label: str) -> 
             continue
         # the generator renders a typed inline map as dict[str, Any] (the fallback type), so the emitted alias is not the
         # union ImplChoose is evaluated on: the property-level judgement is unaffected, the model comparison is skipped
-        nodrift = any(v["k"] == "map" for v in d["u"]["vars"])
-        traces.append({"id": j["id"], "u": d["u"], "cases": [{"cid": i + 1, "p": c["p"]} for i, c in enumerate(d["cases"])], "obs": ob["res"], "_alias": ob["alias_repr"], "_nodrift": nodrift})
+        nodrift = any(v["k"] == "map" for v in d["u"]["vars"]) or fam == "disc-digit"
+        traces.append({"id": j["id"], "u": d["u"], "cases": [{"cid": i + 1, "p": c["p"]} for i, c in enumerate(d["cases"])], "obs": ob["res"], "_alias": ob["alias_repr"], "_nodrift": nodrift, "_naming": "digit" if fam == "disc-digit" else "plain"})
     chk.cov["generated_unions"] = chk.cov.get("generated_unions", 0) + len(traces)
     chk.require(len(traces) * 2 >= len(picked), f"only {len(traces)} of {len(picked)} generated union packages were observable")
     if traces:
@@ -337,7 +342,7 @@ def replay(chk: Check, path: str) -> None:
     u, p = sc["u"], sc["payload"]
     d = {"u": u, "cases": [{"p": p}]}
     if sc.get("via") == "generated":
-        replay_generated(chk, [("replay", d)], "replay")
+        replay_generated(chk, [("disc-digit" if sc.get("naming") == "digit" else "replay", d)], "replay")
     else:
         jobs = [{"id": "replay", "vars": u["vars"], "nullable": u["nullable"], "disc": u["disc"], "cases": [{"cid": 1, "payload": p}], "positions": [sc.get("pos", "top")]}]
         res = core.parallel_py(chk.scratch, "harness.w_union", jobs)
